@@ -280,7 +280,9 @@ impl Admin {
             }
             89..=91 => {
                 let mut s = self.signer_for(w, r, "admin");
-                let mut dest = w.user_kp(0).pubkey();
+                // the destination is a token account of the bank's mint
+                let mint = w.banks[b].mint;
+                let mut dest = w.users[0].tas[mint];
                 let mut gk_used = gk;
                 if r.gen_bool(0.25) {
                     // the admin of another group names its own group next to this group's bank
@@ -290,15 +292,15 @@ impl Admin {
                     let og = (self.g + 1) % w.groups.len();
                     s = clone_kp(&w.groups[og].admin);
                     gk_used = w.groups[og].key;
-                    dest = w.user_kp(1).pubkey();
+                    dest = w.users[1].tas[mint];
                     m.r.count("admin.fees_destination_update_by_foreign_group_admin");
                 }
                 let i = ix::update_fees_destination(gk_used, s.pubkey(), bk, dest);
                 let o = w.exec(m, &[i], &[&s]).await;
-                let mint = w.banks[b].mint;
-                let a = w.create_ata(dest, mint).await;
                 let prog = w.token_program_of_bank(b);
-                let i = ix::withdraw_fees_permissionless(gk, bk, a, prog, pick(r, &[1u64, 100, u64::MAX]), w.mint_prefix(b));
+                // anybody may then move fees - into the fixed destination only
+                let to = if r.gen_bool(0.8) { w.bank(b).fees_destination_account } else { w.users[2 % w.users.len()].tas[mint] };
+                let i = ix::withdraw_fees_permissionless(gk, bk, to, prog, pick(r, &[1u64, 100, u64::MAX]), w.mint_prefix(b));
                 let _ = w.exec(m, &[i], &[]).await;
                 o
             }
